@@ -54,6 +54,55 @@ Proof.
     + split; [apply upd_same|]. split; [intros u Hu; apply upd_other; exact Hu | reflexivity].
 Qed.
 
+(* ---------- recording a captured value's name in the enclosing scopes (fix 5fabe37) only grows the scopes below
+   the top, and only by that name *)
+Definition grown (x : option name) (u u' : list name) : Prop :=
+  incl u u' /\ forall y, In y u' -> In y u \/ x = Some y.
+
+Lemma add_upto_grown g x owners : forall scopes, Forall2 (grown (Some x)) scopes (fst (add_upto g x owners scopes)).
+Proof.
+  induction owners as [|o os IH]; intros scopes; simpl.
+  - induction scopes; constructor; [split; [apply incl_refl | auto] | assumption].
+  - destruct scopes as [|u us]; simpl; [constructor|].
+    specialize (IH us). destruct (add_upto g x os us) as [us' below]. simpl in *.
+    destruct (below || N.eqb o g); simpl; constructor; try exact IH.
+    + split; [intros y Hy; apply sadd_In; right; exact Hy|].
+      intros y Hy. apply sadd_In in Hy. destruct Hy as [->|Hy]; auto.
+    + split; [apply incl_refl | auto].
+Qed.
+
+Lemma rc_scopes_grown v s : Forall2 (grown (f_vn s v)) (f_vscopes s) (rc_scopes v s).
+Proof.
+  assert (Refl : forall l, Forall2 (grown (f_vn s v)) l l).
+  { induction l; constructor; [split; [apply incl_refl | auto] | assumption]. }
+  unfold rc_scopes. destruct (f_own s v) as [g|]; [|apply Refl].
+  destruct (f_vn s v) as [x|] eqn:En; [|apply Refl].
+  destruct (f_vscopes s) as [|top rest]; [constructor|].
+  destruct (f_so s) as [|o orest]; [apply Refl|].
+  constructor; [split; [apply incl_refl | auto] | apply add_upto_grown].
+Qed.
+
+Lemma rc_scopes_top v s top rest : f_vscopes s = top :: rest -> exists rest', rc_scopes v s = top :: rest'.
+Proof.
+  intros H. unfold rc_scopes. rewrite H. destruct (f_own s v); [|eauto]. destruct (f_vn s v); [|eauto].
+  destruct (f_so s); eauto.
+Qed.
+
+Lemma Forall2_length {A B} (R : A -> B -> Prop) l l' : Forall2 R l l' -> length l = length l'.
+Proof. induction 1; simpl; congruence. Qed.
+
+(* the closure process_value(value): what an Ok call returns *)
+Lemma process_value_rec_ok v s s' : process_value_rec v s = (s', None) ->
+  exists s1, process_value v s = (s1, None) /\
+    s' = (if negb (memN v (f_seen s)) then record_captured v s1 else s1).
+Proof.
+  unfold process_value_rec, fbind. destruct (process_value v s) as [s1 [e|]] eqn:E; simpl; intros H; inversion H.
+  exists s1. auto.
+Qed.
+
+Lemma process_value_rec_err v s : snd (process_value_rec v s) = snd (process_value v s).
+Proof. unfold process_value_rec, fbind. destruct (process_value v s) as [s1 [e|]]; reflexivity. Qed.
+
 Definition is_named (o : option name) : Prop := exists n, o = Some n /\ n <> [].
 
 (* one _process_value call *)
@@ -105,6 +154,34 @@ Proof.
     + exact HS.
 Qed.
 
+(* after the first visit of a value its name is in the top scope *)
+Lemma first_visit_top v s s1 : process_value v s = (s1, None) -> memN v (f_seen s) = false ->
+  exists x top rest, f_vn s1 v = Some x /\ f_vscopes s1 = top :: rest /\ In x top.
+Proof.
+  intros H Es. destruct (f_vscopes s) as [|used rest] eqn:Hsc.
+  { unfold process_value in H. rewrite Es, Hsc in H. inversion H. }
+  pose proof (process_value_spec v s used rest Hsc) as S. rewrite H, Es in S.
+  destruct S as [new [A [_ [_ [D _]]]]]. exists new, (new :: used), rest. split; [exact A|]. split; [exact D | left; reflexivity].
+Qed.
+
+Lemma Forall2_In_r {A B} (R : A -> B -> Prop) l l' y : Forall2 R l l' -> In y l' -> exists x, In x l /\ R x y.
+Proof.
+  induction 1 as [|a b r r' Hab _ IH]; intros H; [destruct H|].
+  destruct H as [<-|H]; [exists a; split; [left; reflexivity | exact Hab]|].
+  destruct (IH H) as [x [X Y]]. exists x. split; [right; exact X | exact Y].
+Qed.
+
+(* a property of all names in all scopes survives the recording, when it holds of the value's name *)
+Lemma record_scopes_prop (Q : name -> Prop) v s :
+  (forall x, f_vn s v = Some x -> Q x) ->
+  (forall u y, In u (f_vscopes s) -> In y u -> Q y) ->
+  forall u y, In u (rc_scopes v s) -> In y u -> Q y.
+Proof.
+  intros Hx Hold u' y Hu Hy.
+  destruct (Forall2_In_r _ _ _ _ (rc_scopes_grown v s) Hu) as [u [Iu [_ G]]].
+  destruct (G y Hy) as [X|X]; [apply (Hold u y Iu X) | apply Hx; exact X].
+Qed.
+
 (* ---------- no run ever reports out-of-fuel, whatever the event list and the state *)
 Definition not_fuel (r : fres) : Prop := snd r <> Some OtherError.
 
@@ -125,7 +202,7 @@ Proof. unfold fbind. destruct r as [s [e|]]; simpl; auto. Qed.
 Lemma process_values_nofuel vs : forall s, not_fuel (process_values vs s).
 Proof.
   induction vs as [|v r IH]; intros s; simpl; [discriminate|].
-  apply fbind_nofuel; [apply process_value_nofuel | exact IH].
+  apply fbind_nofuel; [|exact IH]. unfold not_fuel. rewrite process_value_rec_err. apply process_value_nofuel.
 Qed.
 
 Lemma process_node_name_nofuel n s : not_fuel (process_node_name n s).
@@ -197,11 +274,21 @@ Proof.
   - destruct H as [D' N']. split; [exact D' | auto].
 Qed.
 
+Lemma process_value_rec_fine d v s : depth_ok d s -> step_fine d s (process_value_rec v s).
+Proof.
+  intros D. pose proof (process_value_fine d v s D) as F. unfold step_fine in *.
+  rewrite process_value_rec_err. destruct (snd (process_value v s)) as [e|] eqn:E; [exact F|].
+  unfold process_value_rec, fbind. destruct (process_value v s) as [s1 e1]. simpl in *. subst e1. simpl.
+  destruct (negb (memN v (f_seen s))); [|exact F].
+  destruct F as [[D1 D2] Nn]. split; [|exact Nn]. split; simpl; [|exact D2].
+  rewrite <- (Forall2_length _ _ _ (rc_scopes_grown v s1)). exact D1.
+Qed.
+
 Lemma process_values_fine d vs : forall s, depth_ok d s -> step_fine d s (process_values vs s).
 Proof.
   induction vs as [|v r IH]; intros s D; simpl.
   - unfold step_fine. simpl. auto.
-  - apply fine_bind; [apply process_value_fine; exact D | exact IH].
+  - apply fine_bind; [apply process_value_rec_fine; exact D | exact IH].
 Qed.
 
 Lemma process_node_name_fine d n s : depth_ok d s -> step_fine d s (process_node_name n s).
@@ -240,7 +327,7 @@ Proof.
     destruct e as [gid isfunc ins outs| |nid nins nouts]; simpl in W.
     + (* EEnter *) apply (K (S d)); [|exact W]. simpl.
       destruct D as [D1 D2]. destruct (f_vscopes s) as [|top rest] eqn:Hsc; [discriminate|].
-      set (s1 := mkF (f_vx s) (f_nx s) (f_rv s) (f_rn s) (f_vn s) (f_nn s) (f_inits s) (f_seen s) (f_vcnt s) (f_ncnt s) (top :: top :: rest) ([] :: f_nscopes s) (f_mod s)).
+      set (s1 := mkF (f_own s) (gid :: f_so s) (f_vx s) (f_nx s) (f_rv s) (f_rn s) (f_vn s) (f_nn s) (f_inits s) (f_seen s) (f_vcnt s) (f_ncnt s) (top :: top :: rest) ([] :: f_nscopes s) (f_mod s)).
       assert (D' : depth_ok (S d) s1) by (unfold depth_ok, s1; simpl in *; split; congruence).
       assert (F : step_fine (S d) s1
                 (fbind (process_values ins s1) (fun s2 => fbind (process_values outs s2) (fun s3 =>
@@ -299,15 +386,15 @@ Proof.
       repeat (rewrite <- app_assoc in Hg; simpl in Hg). repeat (rewrite <- app_assoc; simpl). exact Hg.
 Qed.
 
-Lemma fix_graph_names_no_inits g vx nx vn nn inits m :
+Lemma fix_graph_names_no_inits g own vx nx vn nn inits m :
   (forall v, owner_of v inits = None) ->
-  let r := fix_graph_names g vx nx vn nn inits m in snd r = None /\ no_inits (fst r).
+  let r := fix_graph_names g own vx nx vn nn inits m in snd r = None /\ no_inits (fst r).
 Proof.
   intros N. unfold fix_graph_names. destruct (collect_names (events_graph g) vn nn inits) as [rv rn].
   assert (W : wb 0 (events_graph g)) by (rewrite <- (app_nil_r (events_graph g)); apply events_balanced; exact I).
-  assert (D : depth_ok 0 (fx_init vx nx rv rn vn nn inits m)) by (split; reflexivity).
+  assert (D : depth_ok 0 (fx_init own vx nx rv rn vn nn inits m)) by (split; reflexivity).
   pose proof (fx_events_fine _ _ _ W D) as F. unfold run_fine in F.
-  destruct (fx_events (events_graph g) (fx_init vx nx rv rn vn nn inits m)) as [s' [e|]] eqn:E; simpl in *.
+  destruct (fx_events (events_graph g) (fx_init own vx nx rv rn vn nn inits m)) as [s' [e|]] eqn:E; simpl in *.
   - destruct F as [_ F]. exfalso. apply F. exact N.
   - split; [reflexivity | apply F; exact N].
 Qed.
@@ -315,22 +402,22 @@ Qed.
 Lemma fix_all_no_inits gs : forall s, no_inits s -> snd (fix_all gs s) = None.
 Proof.
   induction gs as [|g r IH]; intros s N; simpl; [reflexivity|].
-  destruct (fix_graph_names_no_inits g (f_vx s) (f_nx s) (f_vn s) (f_nn s) (f_inits s) (f_mod s) N) as [A B].
-  unfold fbind. destruct (fix_graph_names g (f_vx s) (f_nx s) (f_vn s) (f_nn s) (f_inits s) (f_mod s)) as [s1 e]. simpl in *.
+  destruct (fix_graph_names_no_inits g (f_own s) (f_vx s) (f_nx s) (f_vn s) (f_nn s) (f_inits s) (f_mod s) N) as [A B].
+  unfold fbind. destruct (fix_graph_names g (f_own s) (f_vx s) (f_nx s) (f_vn s) (f_nn s) (f_inits s) (f_mod s)) as [s1 e]. simpl in *.
   subst e. apply IH. exact B.
 Qed.
 
 (* C15_fix_total_partial: a model in which no graph has initializers is never rejected *)
-Lemma name_fix_pass_total_no_inits main funcs vx nx vn nn inits :
-  (forall v, owner_of v inits = None) -> snd (name_fix_pass main funcs vx nx vn nn inits) = None.
+Lemma name_fix_pass_total_no_inits main funcs own vx nx vn nn inits :
+  (forall v, owner_of v inits = None) -> snd (name_fix_pass main funcs own vx nx vn nn inits) = None.
 Proof. intros N. unfold name_fix_pass. apply fix_all_no_inits. exact N. Qed.
 
 (* the only exception a run can end with is the ValueError of the initializer name guard *)
-Lemma fix_graph_names_only_valueerror g vx nx vn nn inits m e :
-  snd (fix_graph_names g vx nx vn nn inits m) = Some e -> e = ValueError.
+Lemma fix_graph_names_only_valueerror g own vx nx vn nn inits m e :
+  snd (fix_graph_names g own vx nx vn nn inits m) = Some e -> e = ValueError.
 Proof.
   unfold fix_graph_names. destruct (collect_names (events_graph g) vn nn inits) as [rv rn]. intros H.
   assert (W : wb 0 (events_graph g)) by (rewrite <- (app_nil_r (events_graph g)); apply events_balanced; exact I).
-  assert (D : depth_ok 0 (fx_init vx nx rv rn vn nn inits m)) by (split; reflexivity).
+  assert (D : depth_ok 0 (fx_init own vx nx rv rn vn nn inits m)) by (split; reflexivity).
   pose proof (fx_events_fine _ _ _ W D) as F. unfold run_fine in F. rewrite H in F. tauto.
 Qed.
